@@ -262,6 +262,39 @@ fn single(idx: u64, rng: &mut Rng, mon: &mut Mon) {
             }
         }
     }
+    // the same contract through Frame::forward_transformed (identity and small frames): it answers for the moved pose
+    // with the caller's previous vector - nearest representative, cost order, and every plain solution of the moved pose
+    if !sentinel && w == 0.0 && rng.usize(10) == 0 {
+        let ident = rng.bool(0.5);
+        let f = if ident { Fr::id() } else { Fr { r: axis_angle([0.0, 0.0, 1.0], rng.range(-0.2, 0.2)), p: [rng.range(-0.05, 0.05), rng.range(-0.05, 0.05), rng.range(-0.05, 0.05)] } };
+        let frame = rs_opw_kinematics::frame::Frame { robot: kin.clone(), frame: fr_to_iso(&f) };
+        let (sols, moved) = frame.forward_transformed(&q, &prev);
+        // (a dof-5 robot carries the caller's J6, which the limits also judge: compare with the 5-DOF solver given that J6)
+        let plain = if rp.dof == 6 { kin.inverse(&moved) } else { kin.inverse_5dof(&moved, prev[5]) };
+        mon.count("forward_transformed_calls");
+        let upto = if rp.dof == 5 { 5 } else { 6 };
+        let mut fine = true;
+        for s in &sols {
+            if (0..upto).any(|j| (s[j] - prev[j]).abs() > PI + 1e-9) {
+                fine = false;
+            }
+        }
+        for k in 1..sols.len() {
+            if cost(&sols[k - 1], &prev, &centres, 0.0) > cost(&sols[k], &prev, &centres, 0.0) + 1e-9 {
+                fine = false;
+            }
+        }
+        for p in &plain {
+            if !sols.iter().any(|s| (0..upto).all(|j| circ_dist(s[j], p[j]) <= 1e-9)) {
+                fine = false;
+            }
+        }
+        if !fine {
+            mon.violation(&format!("forward-transformed:continuation-contract:{}", if ident { "identity-frame" } else { "small-frame" }), "Frame::forward_transformed does not return the moved pose's solutions as nearest representatives in cost order", json!({"robot": robot_json(&robot), "stack": crate::props::stack::stack_json(&layers), "q": jf(&q), "prev": jf(&prev), "frame": {"r": f.r, "p": f.p}, "answers": sols.iter().map(|s| jf(s)).collect::<Vec<_>>(), "plain": plain.iter().map(|s| jf(s)).collect::<Vec<_>>()}));
+        } else {
+            mon.held();
+        }
+    }
     if idx < 2 {
         mon.sample(json!({"kind": "single_call", "robot": robot_json(&robot), "prev": jf(&prev), "weight": w}));
     }
